@@ -27,9 +27,10 @@ const (
 	TSleep
 	TPanic
 	TGatedPanic
+	TCancel // the task itself cancels the lane's context from inside Start()
 )
 
-var taskKindNames = []string{"instant", "gated", "sleep", "panic", "gatedPanic"}
+var taskKindNames = []string{"instant", "gated", "sleep", "panic", "gatedPanic", "cancel"}
 
 type TaskSpec struct {
 	Kind  TaskKind
@@ -48,6 +49,8 @@ func (s TaskSpec) String() string {
 		return fmt.Sprintf("panic(#%d)", s.Panic)
 	case TGatedPanic:
 		return fmt.Sprintf("gatedPanic(g%d,#%d)", s.Gate, s.Panic)
+	case TCancel:
+		return "cancelsContext"
 	}
 	return "instant"
 }
@@ -207,6 +210,7 @@ type sim struct {
 	maxRun          atomic.Int32
 	armed           atomic.Pointer[freeze]
 	cancelled       atomic.Bool
+	byTask          atomic.Bool
 	directorPushing atomic.Bool
 	producers       sync.WaitGroup
 	pollers         sync.WaitGroup
@@ -256,6 +260,10 @@ func (t *task) Start() {
 		<-s.gate(t.spec.Gate)
 	case TSleep:
 		time.Sleep(t.spec.Sleep)
+	case TCancel:
+		s.cancel()
+		s.cancelled.Store(true)
+		s.byTask.Store(true)
 	case TPanic, TGatedPanic:
 		if t.spec.Kind == TGatedPanic {
 			<-s.gate(t.spec.Gate)
@@ -321,7 +329,7 @@ func (s *sim) hook(point string, lane int, tk tasklane.Task) {
 			s.mu.Unlock()
 		}
 	}
-	if point == "P1" && s.directorPushing.Load() {
+	if (point == "P1" || point == "P2") && s.directorPushing.Load() {
 		return // never park the director itself
 	}
 	if f := s.armed.Load(); f != nil && f.point == point && f.lane == lane && f.hit.CompareAndSwap(false, true) {
@@ -405,6 +413,23 @@ func (s *sim) quiescent(where string) {
 		}
 		if !ok {
 			s.violate("C14", "%s: Status().LastPanic = %#v is none of the %d panic values raised so far", where, st.LastPanic, len(raised))
+		}
+	}
+	if s.ctx.Err() != nil {
+		// the context is done and nothing can move any more without the clock: every PushTask that was in
+		// progress must have been released (a producer the harness itself parked at P1/P2 is excused)
+		excused := 0
+		if f := s.armed.Load(); f != nil && f.hit.Load() && (f.point == "P1" || f.point == "P2") {
+			excused = 1
+		}
+		blocked := 0
+		for _, t := range tasks {
+			if !t.pushed {
+				blocked++
+			}
+		}
+		if blocked > excused {
+			s.violate("C07", "%s: the context is done (%v) but %d PushTask call(s) are still blocked (virtual time has not advanced since)", where, s.ctx.Err(), blocked-excused)
 		}
 	}
 	if s.live() && !s.frozen() {
@@ -545,6 +570,8 @@ func Run(p Program) (res Result) {
 				s.cancel()
 				s.cancelled.Store(true)
 				s.res.Cancelled = true
+				synctest.Wait()
+				s.quiescent(fmt.Sprintf("step %d (right after cancel)", i))
 			}
 		}
 	}
@@ -613,6 +640,9 @@ func (s *sim) shutdown(maxSleep time.Duration) {
 			s.quiescent("final, context live, all gates open, time advanced")
 			s.mu.Lock()
 			for _, t := range s.tasks {
+				if !s.live() {
+					break // a task cancelled the context while the gates were being opened: pending tasks may be dropped
+				}
 				if !t.pushed {
 					s.viol = append(s.viol, Violation{"C06", fmt.Sprintf("PushTask(task #%d, lane %d) has not returned %s after it was called (timeout %s)", t.id, t.lane, big, s.p.Timeout)})
 				} else if t.err == nil && t.count.Load() != 1 {
@@ -626,6 +656,8 @@ func (s *sim) shutdown(maxSleep time.Duration) {
 		s.cancel()
 		s.cancelled.Store(true)
 		s.res.Cancelled = true
+		synctest.Wait()
+		s.quiescent("right after the final cancel")
 	}
 	// 2. after the cancel: every new PushTask is refused
 	s.directorPushing.Store(true)
